@@ -1,7 +1,7 @@
 (* C35 - locking reads and serializable sessions on SQLite: consequences of the lock invariant (C19) and of the event invariant. *)
 From Coq Require Import ZArith List Bool Arith Lia.
 Import ListNotations.
-Require Import PonyV.Model.C19Txn PonyV.Proofs.C19Base PonyV.Proofs.C19Proofs2 PonyV.Proofs.C19Proofs3 PonyV.Gen.C35ForUpdate.
+Require Import PonyV.Model.C19Txn PonyV.Proofs.C19Base PonyV.Proofs.C19Proofs PonyV.Proofs.C19Proofs2 PonyV.Proofs.C19Proofs3 PonyV.Gen.C35ForUpdate.
 
 (* new events of a step, as a list *)
 Lemma suffix_forall : forall sh oth tr tr', Suffix sh oth tr tr' ->
@@ -60,3 +60,38 @@ Lemma for_update_text : forall nowait skip,
   concat (generic_for_update nowait skip) = str_FOR_UPDATE ++ (if nowait then str_NOWAIT else []) ++ (if skip then str_SKIP_LOCKED else []) ++ [10%Z]
   /\ concat (sqlite_for_update nowait skip) = [].
 Proof. intros [] []; split; reflexivity. Qed.
+
+(* get_for_update by any key (pk, unique key, composite key), the object cached or not, already locked or not: when it
+   returns, this session is in a transaction, holds the provider lock, and counts a locked object *)
+Lemma getfu_locks : forall oracle cached locked s, WF s -> (locked = true -> 0 < k_forupd s)%nat ->
+  match run_op oracle (OGetFU cached locked) s with
+  | (Ok, s') => k_intxn s' = true /\ mine s' = true /\ lock s' = true /\ (0 < k_forupd s')%nat
+  | _ => True
+  end.
+Proof.
+  intros oracle cached locked s Hwf Hl.
+  pose proof (run_op_spec oracle (OGetFU cached locked) s Hwf) as Hspec. unfold Post in Hspec.
+  cbn [run_op] in *. destruct (cached && locked) eqn:Ecl.
+  - apply andb_prop in Ecl. destruct Ecl as (_ & ->). specialize (Hl eq_refl).
+    assert (Hi : k_intxn s = true) by (apply (wf_forupd _ Hwf); exact Hl).
+    assert (Hr : k_reg s = true).
+    { destruct (k_reg s) eqn:E; auto. destruct (WF_noreg s Hwf E). congruence. }
+    unfold get_cache. rewrite Hr. repeat split; auto.
+    + rewrite (w_mine _ (wf_w _ Hwf)). exact Hi.
+    + apply (WF_mine_lock _ Hwf). rewrite (w_mine _ (wf_w _ Hwf)). exact Hi.
+  - clear Hspec.
+    unfold bind at 1. destruct (get_cache_spec s Hwf) as (s1 & -> & Hwf1 & Hx1 & Hreg1 & _).
+    unfold bind at 1. unfold upd at 1.
+    assert (Hwf2 : WF (set_k_imm true s1)) by (apply WF_set_imm_true; exact Hwf1).
+    set (s2 := set_k_imm true s1) in *. clearbody s2.
+    unfold bind at 1. unfold exec.
+    use (exec_spec oracle false SSelect s2 Hwf2 (or_introl eq_refl)); auto.
+    destruct H as (Hwf3 & _).
+    unfold bind. destruct (k_intxn s0) eqn:Hi; cbn [assert_]; unfold ret, raise, upd; auto.
+    assert (Hwf' : WF (set_k_forupd (S (k_forupd s0)) s0)) by (apply WF_set_forupd; auto).
+    assert (Hi' : k_intxn (set_k_forupd (S (k_forupd s0)) s0) = true) by exact Hi.
+    repeat split; auto.
+    + rewrite (w_mine _ (wf_w _ Hwf')). exact Hi'.
+    + apply (WF_mine_lock _ Hwf'). rewrite (w_mine _ (wf_w _ Hwf')). exact Hi'.
+    + cbn. lia.
+Qed.
